@@ -304,6 +304,47 @@ def apply_rules(body, fs, log, where):
     return body
 
 
+def _param_names(sig):
+    """names of the non-self parameters of a fn signature, by position (None if it cannot be parsed)"""
+    m = re.search(r'\bfn\s+\w+\s*(?:<[^(]*>)?\s*\(', sig)
+    if not m:
+        return None
+    ob = m.end() - 1
+    try:
+        masked = rustlex.mask(sig)
+        if masked[ob] != '(':
+            return None
+        cb = rustlex.match_close(masked, ob)
+    except Exception:
+        return None
+    inner = sig[ob + 1:cb]
+    parts, depth, cur = [], 0, ''
+    for ch in inner:
+        if ch in '<([':
+            depth += 1
+        elif ch in '>)]':
+            depth -= 1
+        if ch == ',' and depth == 0:
+            parts.append(cur)
+            cur = ''
+        else:
+            cur += ch
+    if cur.strip():
+        parts.append(cur)
+    names = []
+    for p_ in parts:
+        p_ = p_.strip()
+        if re.match(r'(&\s*(mut\s+)?|mut\s+)?self\b', p_):
+            continue
+        mm = re.match(r'(?:mut\s+)?(\w+)\s*:', p_)
+        if mm:
+            names.append(mm.group(1))
+        else:
+            mm = re.match(r'Tracked\((\w+)\)|Ghost\((\w+)\)', p_)
+            names.append((mm.group(1) or mm.group(2)) if mm else p_)
+    return names
+
+
 def gen_fn(fs, cfg, log, vac=False):
     src = _read_repo(fs.file)
     within = None
@@ -322,6 +363,16 @@ def gen_fn(fs, cfg, log, vac=False):
     if fs.expect_sig and not re.search(fs.expect_sig, sig_src):
         raise ExtractError('%s: signature changed: `%s` does not match /%s/' % (where, sig_src, fs.expect_sig))
     body = rustlex.strip_comments(f['body'])
+    # N5b: parameter names.  The contract's signature names the parameters; if the real function names them
+    # differently (a rename is behaviour-preserving) the body is renamed position by position.
+    if fs.sig and not fs.keep_sig:
+        real_p = _param_names(sig_src)
+        spec_p = _param_names(re.sub(r'\s+', ' ', fs.sig.split('requires')[0].split('ensures')[0]))
+        if real_p is not None and spec_p is not None and len(real_p) <= len(spec_p):
+            for (ro, so) in zip(real_p, spec_p):
+                if ro != so and ro not in spec_p and not ro.startswith('_') and re.match(r'^\w+$', ro) and re.match(r'^\w+$', so):
+                    body, k = re.subn(r'(?<![\w.])%s\b' % re.escape(ro), so, body)
+                    log.append(dict(where=where, rule='N5b_param_rename %s->%s' % (ro, so), matches=k, required=None))
     # N2: drop attributes inside bodies (#[allow(..)] on statements)
     body = re.sub(r'#\[allow\([^\]]*\)\]\s*', '', body)
     body = apply_rules(body, fs, log, where)
